@@ -15,8 +15,11 @@
      ParseShareWalk.parse_shares_inodes_iff_same_extent  (for ANY image) two non-directory records share an
                                   Inode iff both have data and the same extent; empty files: one Inode each
      ParseWrite.reopen_write_fixpoint  write_fp of the opened, unedited object gives the image back (no reshuffle)
+     ParseTrunc.parse_truncation_lengths  (for ANY image) a record that reaches beyond the end of the image, and
+                                  every record linked to its Inode, carries the Inode's length = bytes left
      ParseExamples                non-vacuity; graph_of_level, parse_infers_level_refuted,
-                                  parse_truncation_refuted, parse_share_lengths_differ *)
+                                  parse_truncation_example, parse_truncation_refuted_old (the code before
+                                  commit 10cfb30), parse_share_lengths_differ *)
 From Coq Require Import ZArith List Bool Lia ZifyBool.
 From PV.Base Require Import Prim ListX.
 From PV.Gen Require Import GenConst GenFun.
